@@ -191,6 +191,17 @@ impl PdfError {
             _ => false
         }
     }
+    /// The error says that a referenced object does not exist: it is free, was never defined, or its
+    /// number lies beyond the cross-reference table. Such a reference is a reference to the null object
+    /// (PDF 32000-1, 7.3.10). Looks through the `Try` and `Shared` wrappers added on the way up.
+    pub fn is_missing_object(&self) -> bool {
+        match self {
+            PdfError::NullRef { .. } | PdfError::FreeObject { .. } | PdfError::UnspecifiedXRefEntry { .. } => true,
+            PdfError::Try { source, .. } => source.is_missing_object(),
+            PdfError::Shared { source } => source.is_missing_object(),
+            _ => false
+        }
+    }
 }
 datasize::non_dynamic_const_heap_size!(PdfError, 0);
 
